@@ -40,7 +40,9 @@ def _str_set(node) -> List[str]:
 def _func(tree, name):
     for n in tree.body:
         if isinstance(n, ast.FunctionDef) and n.name == name:
-            return n
+            # a common prelude moved into a helper (`check_element_names(parent_tag, child_tag)`) is followed
+            from harness.translate import inline_statement_calls
+            return inline_statement_calls(tree, n)
     raise UnknownShape(f'function {name} not found in xml.py')
 
 
